@@ -6,6 +6,7 @@ An obligation is discharged when the body it sits in is covered by an item rule 
 establishes the value of every returned enum as a declared variant for all inputs (C01 accept set, C03 lookup,
 C04 index->discriminant map, C05 step function, C06/C07 constructors) - and the unsafe value flows into the result
 the rule examined."""
+import re
 from lib import runner
 from rules import tables, shapes as S
 from rules.items import Items, GEN_FILE
@@ -111,7 +112,7 @@ def check_instance(inst, F, ctx, extra, collect=None):
     if obs:
         ctx.nontrivial.add(tuple(inst.rec['classes'][:5]) + tuple(sorted({o[1] for o in obs})))
     for path, kind, site, term in obs:
-        owner = path.split('::{closure')[0]
+        owner = re.sub(r'(::\{closure#\d+\})+$', '', path)     # a closure inside a derived body belongs to that body
         if kind == 'rawptr' or (kind.startswith('unsafe-call:') and kind.split(':', 1)[1] not in UNSAFE_OK):
             ctx.obligation(False)
             ctx.violation('unsafe-whitelist', inst, owner.split('::')[-1], 'derived code performs an unsafe operation the rule set has no proof rule for: %s at %s bb%s' % (kind, path.split('::', 2)[-1], site[0]),
